@@ -780,10 +780,9 @@ static bool intsInRange(const Ref& r) {
 
 struct Flags { bool expectRefusal = false; bool probeTemp = false; bool probeIntReg = false; bool topPlane = false; };
 
-static Case genCase(Rng& rng, long idx, Flags& fl) {
+static Case genCase(Rng& rng, double pBig, Flags& fl) {
     Case cs;
-    (void)idx;
-    int maxdim = rng.chance(0.25) ? 6 : 4;
+    int maxdim = rng.chance(pBig) ? 6 : 4;
     for (int d = 0; d < 3; ++d) cs.n[d] = 1 + (int)rng.below(maxdim);
     cs.N = cs.n[0] * cs.n[1] * cs.n[2];
     cs.unit = (int)rng.below(10); cs.unit = cs.unit < 4 ? 0 : cs.unit < 8 ? 1 : cs.unit == 8 ? 2 : 3;
@@ -1007,11 +1006,12 @@ int main(int argc, char** argv) {
     vh::Args args = vh::parse_args(argc, argv);
     vh::Reporter rep(args, "C12");
     const double TOL = args.getd("tol", 1e-12);
+    const double pBig = args.geti("big", 25) / 100.0;      // share of cases with extents up to 6 (else up to 4)
     Opm::Parser parser;
 
     rep.run_cases([&](long idx, Rng& rng) {
         Flags fl;
-        Case cs = genCase(rng, idx, fl);
+        Case cs = genCase(rng, pBig, fl);
         const Units& U = UNITS[cs.unit];
         auto ref = replay(cs);
         const std::string deckA = renderDeck(cs, true), deckB = renderDeck(cs, false);
